@@ -32,7 +32,12 @@ const (
 )
 
 type state struct {
-	msgs []*schema.Message
+	// exported: the state travels through checkpoints when the exported graph is nested in a graph with a checkpoint store
+	Msgs []*schema.Message
+}
+
+func init() {
+	_ = compose.RegisterSerializableType[state]("_eino_host_multiagent_state")
 }
 
 // NewMultiAgent creates a new host multi-agent system.
@@ -131,7 +136,7 @@ func addSpecialistAgent(specialist *Specialist, g *compose.Graph[[]*schema.Messa
 			return err
 		}
 		preHandler := func(_ context.Context, input []*schema.Message, state *state) ([]*schema.Message, error) {
-			return state.msgs, nil // replace the tool call message with input msgs stored in state
+			return state.Msgs, nil // replace the tool call message with input msgs stored in state
 		}
 		if err := g.AddLambdaNode(specialist.Name, lambda, compose.WithStatePreHandler(preHandler), compose.WithNodeName(specialist.Name)); err != nil {
 			return err
@@ -142,10 +147,10 @@ func addSpecialistAgent(specialist *Specialist, g *compose.Graph[[]*schema.Messa
 				return append([]*schema.Message{{
 					Role:    schema.System,
 					Content: specialist.SystemPrompt,
-				}}, state.msgs...), nil
+				}}, state.Msgs...), nil
 			}
 
-			return state.msgs, nil // replace the tool call message with input msgs stored in state
+			return state.Msgs, nil // replace the tool call message with input msgs stored in state
 		}
 
 		if err := g.AddChatModelNode(specialist.Name, specialist.ChatModel, compose.WithStatePreHandler(preHandler), compose.WithNodeName(specialist.Name)); err != nil {
@@ -158,7 +163,10 @@ func addSpecialistAgent(specialist *Specialist, g *compose.Graph[[]*schema.Messa
 
 func addHostAgent(model model.BaseChatModel, prompt string, g *compose.Graph[[]*schema.Message, *schema.Message]) error {
 	preHandler := func(_ context.Context, input []*schema.Message, state *state) ([]*schema.Message, error) {
-		state.msgs = input
+		if input == nil {
+			input = state.Msgs // the host is re-run after an interrupt its model asked for: the messages are the recorded ones
+		}
+		state.Msgs = input
 		if len(prompt) == 0 {
 			return input, nil
 		}
